@@ -27,6 +27,12 @@ structure St where
   done : List (Nat × Nat × Nat × List (Nat × Nat × String)) := []
   /-- one live `QueryTaxResult` (after `build_summarized_result`) the `s…` writer ops share; the W·scaled it belongs to -/
   sess : Option (List (List (Entry SF String)) × Nat) := none
+  /-- how the rows of the queries are delivered: files, each a sequence of (query, row) references; `none` = one CSV per
+  query, rows in gather's order -/
+  layout : Option (List (List (Nat × Nat))) := none
+  /-- gather CSV columns removed before loading: an essential one / `total_weighted_hashes` -/
+  dropEss : Bool := false
+  dropTotW : Bool := false
 
 def init : St := {}
 
@@ -44,6 +50,8 @@ def errName : Err → String
   | .thr => "ValueError:thr"
   | .empty => "ValueError:empty"
   | .unbound => "UnboundLocalError"
+  | .dupq => "ValueError:dupq"
+  | .cols => "ValueError:cols"
   | .other => "ValueError:other"
 
 abbrev R := RowV SF String
@@ -57,6 +65,7 @@ def mkRows (st : St) : Except Err (Nat × List R) := do
     else (loadTaxLoop st.keepFull st.keepVer st.force st.tax []).map (fun t => (st.nranks, t))
   if tax.isEmpty then throw .empty
   if st.rows.isEmpty then throw .empty
+  if st.dropEss then throw .cols
   let rows : List R := st.rows.map (fun (k, w, name) =>
     ⟨SF.ofF (divNat k st.N), SF.ofF (divNat w st.W), k * st.scaled,
      matchLineage tax name st.keepFull st.keepVer⟩)
@@ -82,10 +91,41 @@ def build (st : St) (single : Option Nat) : Except Err (List (List (Entry SF Str
   let (nranks, rows) ← mkRows st
   buildSummarized f64 f64Repair (st.N * st.scaled) nranks rows single
 
-/-- every query of the run, in order: the finished ones, then the current one -/
+/-- every query of the run: the finished ones, then the current one -/
+def allQ (st : St) : List (Nat × Nat × Nat × List (Nat × Nat × String)) :=
+  st.done ++ [(st.N, st.W, st.scaled, st.rows)]
+
+def defaultLayout (st : St) : List (List (Nat × Nat)) :=
+  (allQ st).zipIdx.map (fun (q, i) => (List.range q.2.2.2.length).map (fun r => (i, r)))
+
+/-- `check_and_load_gather_csvs` on the files of the layout, then `build_summarized_result` per query: the queries in
+the loader's order (first appearance), each with its number -/
+def buildAllIdx (st : St) : Except Err (List (Nat × List (List (Entry SF String)))) := do
+  -- the taxonomy is loaded (and may be refused) first
+  let _ ← mkRows { st with rows := [(1, 1, "x")], N := 1, W := 1, failMissing := false, dropEss := false }
+  let tax ←
+    if st.mode = "lin" then (loadLinLoop st.keepFull st.keepVer st.force st.tax none []).map (·.2)
+    else loadTaxLoop st.keepFull st.keepVer st.force st.tax []
+  let qs := allQ st
+  let files : List (List (Nat × (Nat × Nat × String))) :=
+    (st.layout.getD (defaultLayout st)).map (fun f => f.filterMap (fun (qi, ri) =>
+      (qs[qi]?).bind (fun q => (q.2.2.2[ri]?).map (fun row => (qi, row)))))
+  -- an essential column missing: the first row of the first file is refused (a file without rows is refused as empty)
+  if st.dropEss then
+    match files with
+    | [] => pure ()
+    | f :: _ => if f.isEmpty then throw .empty else throw .cols
+  let groups ← loadFiles st.failMissing
+    (fun (row : Nat × Nat × String) => (matchLineage tax row.2.2 st.keepFull st.keepVer).isEmpty) files []
+  groups.mapM (fun (qi, rows) =>
+    match qs[qi]? with
+    | some (n, w, sc, _) =>
+      (build { st with N := n, W := w, scaled := sc, rows := rows, failMissing := false, dropEss := false } none).map
+        (fun ess => (qi, ess))
+    | none => .error .other)
+
 def buildAll (st : St) : Except Err (List (List (List (Entry SF String)))) :=
-  (st.done ++ [(st.N, st.W, st.scaled, st.rows)]).mapM (fun (n, w, sc, rows) =>
-    build { st with N := n, W := w, scaled := sc, rows := rows } none)
+  (buildAllIdx st).map (fun l => l.map Prod.snd)
 
 def insertAggDesc (x : String × SF) : List (String × SF) → List (String × SF)
   | [] => [x]
@@ -250,6 +290,9 @@ def step (st : St) (line : String) : St × String :=
     | _, _ => bad
   | ["kreport"] =>
     if st.mode ≠ "std" then (st, "err ValueError:other")
+    else if st.dropTotW then
+      -- total_weighted_hashes == 0: "cannot produce 'kreport' format from gather results before sourmash v4.5.0"
+      (st, answer ((build st none).bind (fun ess => if ess.flatten.isEmpty then .ok "" else .error .other)))
     else (st, answer ((build st none).map (fun ess => showKreport (st.W * st.scaled) ess)))
   | ["bioboxes"] =>
     if st.mode ≠ "std" then bad
@@ -258,6 +301,23 @@ def step (st : St) (line : String) : St × String :=
     match nat? r with
     | some r => (st, answer ((build st none).map (fun ess => showHuman (sessHuman f64 r ess).2)))
     | none => bad
+  | "mfiles" :: fs =>
+    -- file|file|… given as words `q.r,q.r,…` (one word per file; `-` = a file without rows)
+    let parse (f : String) : Option (List (Nat × Nat)) :=
+      if f = "-" then some [] else (f.splitOn ",").mapM (fun t =>
+        match t.splitOn "." with
+        | [a, b] => do pure (← a.toNat?, ← b.toNat?)
+        | _ => none)
+    match fs.mapM parse with
+    | some files =>
+      let qs := allQ st
+      if files.all (fun f => f.all (fun (qi, ri) => match qs[qi]? with | some q => ri < q.2.2.2.length | none => false))
+      then ({ st with layout := some files }, "ok") else bad
+    | none => bad
+  | ["dropcols", e, t] =>
+    match nat? e, bool? t with
+    | some e, some t => ({ st with dropEss := decide (e > 0), dropTotW := t }, "ok")
+    | _, _ => bad
   | ["nextq"] =>
     if st.N = 0 then bad
     else ({ st with done := st.done ++ [(st.N, st.W, st.scaled, st.rows)], N := 0, W := 0, scaled := 1, rows := [],
@@ -279,8 +339,8 @@ def step (st : St) (line : String) : St × String :=
         pure (" ".intercalate (rows.map (fun p => enc p.1 ++ "|" ++ "|".intercalate (p.2.map SF.toStr))))))
     | none => bad
   | ["mcsv"] =>
-    (st, answer ((buildAll st).map (fun qs =>
-      " ".intercalate (((qs.zipIdx).map (fun (ess, i) =>
+    (st, answer ((buildAllIdx st).map (fun qs =>
+      " ".intercalate (((qs.map (fun p => (p.2, p.1))).map (fun (ess, i) =>
         " ".intercalate (((ess.map (writerOrder f64)).flatten).map (fun e => s!"{i}:{showEntry e}")))).filter (· ≠ "")))))
   | "fa" :: ws => (st, ratOp ws (fun x y => SF.ofF (fadd x y)))
   | "fs" :: ws => (st, ratOp ws SF.subF)
